@@ -8,7 +8,7 @@ import WuffsVerif.Proof.RenderShape
   closed <tabs 0|1> <spaces n> <hex>   -> 1 | 0         (ghost: Indent.lexClosed, the hypothesis of indent_idempotent)
   num <hex>                            -> ok <hex>      (lang/render appendNum(nil, s))
   fmt <hex>                            -> ok <hex> | reject   (token.Tokenize + render.Render, no parse gate)
-  rok <hex>                            -> 1 | 0 tokens | 0 comments | 0 lines | reject
+  rok <hex>                            -> 1 | 0 tokens | 0 comments | 0 sorted | 0 lines | reject
         (ghost: the hypothesis `streamOK` of Props.C12.render_retokenizes_partial on Tokenize's result;
          the harness sends it for every source the real wuffsfmt accepts and expects 1)
 -/
@@ -43,6 +43,7 @@ def c12Step (l : List String) : String :=
       | some (toks, comments) =>
         if !toks.all Render.wfTok then "0 tokens"
         else if !comments.toList.all Render.wfComment then "0 comments"
+        else if !Render.sortedLinesB toks then "0 sorted"
         else if !Render.linesOK (toks.length + 1) toks then "0 lines"
         else "1"
       | none => "reject"
